@@ -1,5 +1,6 @@
 import ParryModel.C20.Lemmas
 import ParryModel.C20.Theorems2
+import ParryModel.C20.Theorems3
 import ParryModel.C20.Model
 import Mathlib.Tactic.Order
 set_option linter.style.haveILetI false
@@ -323,4 +324,53 @@ theorem tri_coincident_bc_fixed_finite :
      Option.isSome (r.1.pt.z : Option Rat) = true ∧
      Option.getD (r.1.pt.x : Option Rat) 7 = 1 ∧ Option.getD (r.1.pt.y : Option Rat) 7 = 0) := by
   decide +kernel
+
+/-! ## the patched ball ray normal (`fixes/C20-ball-ray-normal-at-centre.diff`) -/
+
+/-- **C20 (ray_toi_and_normal_with_ball, patched)**: with `pos.try_normalize(0.0).unwrap_or(zeros)` the function is defined for
+EVERY finite centre, radius, ray and flag — ray origin at the centre, zero direction, zero radius included — and nothing
+is asked of the square-root operation: the division is guarded by a test on the divisor `sqrt |pos|²` itself. -/
+theorem defined_rayToiAndNormalWithBallFixed (center : V3 K) (radius : K) (ray : Ray3 K) (solid : Bool) :
+    letI := fieldNum K sq
+    rayToiAndNormalWithBallFixed (lift3 center : V3 (Opt K sq)) (val radius) (liftRay3 sq ray) solid
+      = liftBH sq (rayToiAndNormalWithBallFixed center radius ray solid) := by
+  letI := fieldNum K sq
+  simp only [rayToiAndNormalWithBallFixed, defined_rayToiWithBall]
+  rcases rayToiWithBall center radius ray solid with ⟨ins, inter⟩
+  cases inter with
+  | none => rfl
+  | some t =>
+    simp only [liftBO, liftBH, Option.map_some, optsimp]
+    by_cases h : ((ray.o.add (ray.d.smul t)).sub center).norm ≤ 0
+    · simp only [if_pos h, optsimp]; split_ifs <;> rfl
+    · have hn : ((ray.o.add (ray.d.smul t)).sub center).norm ≠ 0 := fun h0 => h (le_of_eq h0)
+      simp only [if_neg h, if_neg hn, optsimp]; split_ifs <;> rfl
+
+/-- where the unpatched function is defined (hit point ≠ centre) the patch changes nothing -/
+theorem rayToiAndNormalWithBallFixed_eq (center : V3 K) (radius : K) (ray : Ray3 K) (solid : Bool)
+    (hs : ∀ x, 0 ≤ x → 0 ≤ sq x)
+    (h : ∀ t, letI := fieldNum K sq; (rayToiWithBall center radius ray solid).2 = some t →
+      sq ((ray.o.add (ray.d.smul t)).sub center).normSq ≠ 0) :
+    letI := fieldNum K sq
+    rayToiAndNormalWithBallFixed center radius ray solid = rayToiAndNormalWithBall center radius ray solid := by
+  letI := fieldNum K sq
+  simp only [rayToiAndNormalWithBallFixed, rayToiAndNormalWithBall]
+  rcases hh : rayToiWithBall center radius ray solid with ⟨ins, inter⟩
+  cases inter with
+  | none => rfl
+  | some t =>
+    have hne := h t (by rw [hh])
+    have hpos : ¬ ((ray.o.add (ray.d.smul t)).sub center).norm ≤ 0 := by
+      intro hle
+      exact hne (le_antisymm hle (hs _ (normSq3_nonneg (sq := sq) _)))
+    simp only [Option.map_some, if_neg hpos, V3.normalize]
+
+/-- the witness input of `ball_normal_origin_at_centre_nan` on the patched model: a finite (zero) normal -/
+theorem ball_normal_origin_at_centre_fixed_finite :
+    let r := rayToiAndNormalWithBallFixed (K := NaNable) ⟨some 0, some 0, some 0⟩ (some 1)
+      ⟨⟨some 0, some 0, some 0⟩, ⟨some 1, some 0, some 0⟩⟩ true
+    (r.2.map fun h => (Option.isSome (h.n.x : Option ℚ), Option.isSome (h.n.y : Option ℚ), Option.isSome (h.n.z : Option ℚ)))
+      = some (true, true, true) := by
+  decide +kernel
+
 end C20
